@@ -205,6 +205,32 @@ fn has_ctx(spec: &Spec) -> bool {
 }
 
 // ---------------------------------------------------------------------------------------------
+// Helpers shared by the judges
+
+fn std_plan(tier: Tier, scripts: bool) -> Plan {
+    Plan {
+        exhaustive_cap: tier.pick(1500, 8000),
+        guided: tier.pick(300, 1500),
+        wild: 40,
+        scripts,
+        script_len: 10,
+        scripts_per_input: 2,
+    }
+}
+
+fn one<'a>(models: &'a [ModelOut], gots: &'a [Outcome]) -> Result<(&'a ModelOut, &'a proto::Trace), Verdict> {
+    match basic_health(&gots[0]) {
+        Ok(t) => Ok((&models[0], t)),
+        Err(e) => Err(Verdict::Bad(e)),
+    }
+}
+
+fn first_invalid_is_final_eoi(m: &ModelOut) -> bool {
+    // all InvalidToken items of the reference are the single end-of-input error
+    m.facts.invalid == m.facts.eoi_error_non_init
+}
+
+// ---------------------------------------------------------------------------------------------
 // C01
 
 pub struct C01;
@@ -230,10 +256,10 @@ impl Prop for C01 {
             },
         )
     }
-    fn judge(&self, _ctx: &SpecCtx, _case: &Case, model: &ModelOut, got: &Outcome) -> Verdict {
-        let t = match basic_health(got) {
-            Ok(t) => t,
-            Err(e) => return Verdict::Bad(e),
+    fn judge(&self, _ctx: &SpecCtx, _v: &[Case], models: &[ModelOut], gots: &[Outcome]) -> Verdict {
+        let (model, t) = match one(models, gots) {
+            Ok(x) => x,
+            Err(v) => return v,
         };
         match compare_runs(&model.trace.a, &t.a, &Facet::TOKENS) {
             Err(e) => Verdict::Bad(e),
@@ -250,11 +276,771 @@ impl Prop for C01 {
     }
 }
 
+// ---------------------------------------------------------------------------------------------
+// C03
+
+pub struct C03;
+
+/// Invariant over the produced trace alone (no reference positions involved): replaying the
+/// observed actions and their decisions, every rule that ran belongs to the rule set that is
+/// active by the documented rules — Init at the start, changed only by a switch decision or reset
+/// to Init by an InvalidToken.
+fn set_discipline(ctx: &SpecCtx, case: &Case, run: &proto::Run) -> Result<(), String> {
+    use oracle::spec::Kind;
+    let mut set_of = std::collections::HashMap::new();
+    let mut kind_of = std::collections::HashMap::new();
+    for (si, s) in ctx.flat.sets.iter().enumerate() {
+        for r in &s.rules {
+            set_of.insert(r.id, si);
+            kind_of.insert(r.id, r.kind.clone());
+        }
+    }
+    let n_sets = ctx.flat.sets.len() as u32;
+    let named = ctx.flat.named;
+    let mut active = 0usize;
+    let mut script_pos = 0usize;
+    let mut li = 0usize;
+    let check = |rule: u32, active: usize, what: &str| -> Result<(), String> {
+        match set_of.get(&rule) {
+            Some(s) if *s == active => Ok(()),
+            Some(s) => Err(format!(
+                "{}: rule {} of rule set {} ran while rule set {} is the active one (no switch or failure explains the change)",
+                what, rule, ctx.flat.sets[*s].name, ctx.flat.sets[active].name
+            )),
+            None => Err(format!("{}: unknown rule id {}", what, rule)),
+        }
+    };
+    for i in 0..=run.items.len() {
+        while li < run.log.len() && run.log[li].item_idx as usize <= i {
+            let e = &run.log[li];
+            li += 1;
+            check(e.rule, active, &format!("action {}", li - 1))?;
+            let sw = match kind_of.get(&e.rule) {
+                Some(Kind::Sw(k)) | Some(Kind::SwRet(k)) => Some(*k),
+                Some(k @ Kind::Script) | Some(k @ Kind::FScript) => {
+                    let d = case.script.get(script_pos).copied().unwrap_or(Dec::Ret);
+                    script_pos += 1;
+                    let _ = k;
+                    match d {
+                        Dec::Switch(j) | Dec::SwitchRet(j) | Dec::ResetSwitch(j) if named => Some(j),
+                        _ => None,
+                    }
+                }
+                _ => None,
+            };
+            if let Some(j) = sw {
+                active = (j % n_sets) as usize;
+            }
+        }
+        if let Some(it) = run.items.get(i) {
+            match it {
+                proto::Item::Tok { tok, .. } => {
+                    if matches!(kind_of.get(tok), Some(Kind::Simple)) {
+                        check(*tok, active, &format!("token {}", i))?;
+                    }
+                }
+                proto::Item::Invalid { .. } => active = 0,
+                proto::Item::Custom { .. } => {}
+            }
+        }
+    }
+    Ok(())
+}
+
+impl Prop for C03 {
+    fn id(&self) -> &'static str {
+        "C03"
+    }
+    fn profiles(&self, tier: Tier) -> Vec<(Profile, usize)> {
+        let mut lit = p_sets();
+        lit.name = "sets-literal";
+        lit.re.w_str = 10;
+        lit.re.w_char = 10;
+        lit.re.size = 3;
+        lit.re.depth = 2;
+        vec![(p_sets(), tier.pick(200, 2500)), (lit, tier.pick(120, 1500))]
+    }
+    fn cases(&self, ctx: &SpecCtx, _c: &mut Compiled, r: &mut TestRunner, tier: Tier) -> Vec<Case> {
+        cases_from(ctx, r, &std_plan(tier, true))
+    }
+    fn judge(&self, ctx: &SpecCtx, v: &[Case], models: &[ModelOut], gots: &[Outcome]) -> Verdict {
+        let (model, t) = match one(models, gots) {
+            Ok(x) => x,
+            Err(v) => return v,
+        };
+        if let Err(e) = set_discipline(ctx, &v[0], &t.a) {
+            return Verdict::Bad(e);
+        }
+        match compare_runs(&model.trace.a, &t.a, &Facet::TOKENS) {
+            Err(e) => Verdict::Bad(e),
+            Ok(()) => Verdict::Ok {
+                nontrivial: model.facts.distinct_nonzero_sets >= 2 && model.facts.tokens_after_last_switch >= 1,
+            },
+        }
+    }
+    fn rule(&self) -> String {
+        "definitions: 2-6 rule sets (empty ones allowed) in random order after Init, rules with global ids so that a wrong entry state cannot hide, a varying number of literal-only rules (terminal states removed by simplification) and chains (inlined states) in front of every entry state; switches come from fixed switch rules and from scripted decisions. Cases = (definition, input, decision script). Compared: items and the logged (rule id, span) sequence up to the first InvalidToken. Non-trivial = at least two distinct non-Init rule sets were entered and at least one token was produced after the last switch.".into()
+    }
+    fn min_nontrivial(&self, _tier: Tier) -> usize {
+        100
+    }
+}
+
+// ---------------------------------------------------------------------------------------------
+// C04
+
+pub struct C04;
+
+impl Prop for C04 {
+    fn id(&self) -> &'static str {
+        "C04"
+    }
+    fn profiles(&self, tier: Tier) -> Vec<(Profile, usize)> {
+        let mut big = p_ctx();
+        big.name = "ctx-classes";
+        big.re.w_set = 8;
+        big.re.w_any = 3;
+        big.re.chars = ABCDE.to_vec();
+        vec![(p_ctx(), tier.pick(260, 3000)), (big, tier.pick(100, 1200))]
+    }
+    fn cases(&self, ctx: &SpecCtx, _c: &mut Compiled, r: &mut TestRunner, tier: Tier) -> Vec<Case> {
+        cases_from(ctx, r, &std_plan(tier, false))
+    }
+    fn judge(&self, _ctx: &SpecCtx, _v: &[Case], models: &[ModelOut], gots: &[Outcome]) -> Verdict {
+        let (model, t) = match one(models, gots) {
+            Ok(x) => x,
+            Err(v) => return v,
+        };
+        match compare_runs(&model.trace.a, &t.a, &Facet::TOKENS) {
+            Err(e) => Verdict::Bad(e),
+            Ok(()) => Verdict::Ok {
+                nontrivial: model.facts.ctx_rejected > 0,
+            },
+        }
+    }
+    fn unusable_is_violation(&self, spec: &Spec) -> bool {
+        has_ctx(spec)
+    }
+    fn rule(&self) -> String {
+        "definitions: 60% of the rules carry a right context drawn from the full regex grammar (strings, sets, repetition, alternation, nullable contexts, `$` in tail position), mixed with context-free rules over the same lexemes; inputs as for C01. Compared: tokens with byte spans (a consumed context would move them) and the action log, up to the first InvalidToken. A context-bearing definition that does not expand or compile is a violation (\"any regex may serve as a context\"). Non-trivial = the reference discarded at least one candidate (rule, end) because its context failed.".into()
+    }
+    fn min_nontrivial(&self, _tier: Tier) -> usize {
+        200
+    }
+}
+
+// ---------------------------------------------------------------------------------------------
+// C05
+
+pub struct C05;
+
+impl Prop for C05 {
+    fn id(&self) -> &'static str {
+        "C05"
+    }
+    fn profiles(&self, tier: Tier) -> Vec<(Profile, usize)> {
+        vec![(p_eoi(), tier.pick(300, 3500))]
+    }
+    fn cases(&self, ctx: &SpecCtx, _c: &mut Compiled, r: &mut TestRunner, tier: Tier) -> Vec<Case> {
+        // every prefix of the guided inputs: the input ends at every possible point
+        let mut plan = std_plan(tier, true);
+        plan.guided = tier.pick(60, 300);
+        plan.wild = 10;
+        let base = cases_from(ctx, r, &plan);
+        let mut out = Vec::with_capacity(base.len() * 2);
+        let mut seen = std::collections::HashSet::new();
+        for c in base {
+            let chars: Vec<char> = c.input.chars().collect();
+            if chars.len() <= 6 {
+                // bounded-exhaustive inputs already contain all their prefixes
+                if seen.insert((c.input.clone(), c.script.clone())) {
+                    out.push(c);
+                }
+                continue;
+            }
+            for k in 0..=chars.len() {
+                let mut p = c.clone();
+                p.input = chars[..k].iter().collect();
+                p.extra_nexts = 3;
+                if seen.insert((p.input.clone(), p.script.clone())) {
+                    out.push(p);
+                }
+            }
+        }
+        out
+    }
+    fn judge(&self, _ctx: &SpecCtx, _v: &[Case], models: &[ModelOut], gots: &[Outcome]) -> Verdict {
+        let (model, t) = match one(models, gots) {
+            Ok(x) => x,
+            Err(v) => return v,
+        };
+        if t.a.after_none > 0 {
+            return Verdict::Bad(format!(
+                "stream is not fused: {} item(s) were produced after next() had returned None",
+                t.a.after_none
+            ));
+        }
+        let whole = first_invalid_is_final_eoi(model);
+        let facet = Facet {
+            upto_first_invalid: !whole,
+            ..Facet::TOKENS
+        };
+        match compare_runs(&model.trace.a, &t.a, &facet) {
+            Err(e) => Verdict::Bad(e),
+            Ok(()) => Verdict::Ok {
+                nontrivial: model.facts.rewind_at_eoi > 0
+                    || model.facts.ended_in_non_init
+                    || model.facts.eoi_matches > 0,
+            },
+        }
+    }
+    fn rule(&self) -> String {
+        "definitions: 1-3 rule sets, 40% of the rules end in `$` (`re $`, `re $?`, `re (x | $)`, bare `$`), in Init and elsewhere, all action kinds; inputs: every prefix of every generated input (so the input ends inside a lexeme, right after a match, right after a rewind, in every rule set), 3 extra next() calls after the first None. Compared: the whole stream when the only InvalidToken of the reference is the end-of-input error, otherwise up to the first InvalidToken; plus: nothing is produced after None. Non-trivial = the input ended during a rewind, or in a non-Init rule set, or a rule matched through `$`.".into()
+    }
+    fn min_nontrivial(&self, _tier: Tier) -> usize {
+        200
+    }
+}
+
+// ---------------------------------------------------------------------------------------------
+// C06
+
+pub struct C06;
+
+fn special(c: char) -> bool {
+    c == '\n' || c == '\t' || !c.is_ascii()
+}
+
+/// Validity predicates on the produced trace that do not depend on the reference lexer.
+fn span_predicates(input: &str, t: &proto::Run, check_text: bool) -> Result<(), String> {
+    let chars: Vec<char> = input.chars().collect();
+    let locs = oracle::model::loc_table(&chars);
+    let mut by_byte = std::collections::HashMap::new();
+    for l in &locs {
+        by_byte.insert(l.byte, *l);
+    }
+    let check = |l: proto::Loc, what: &str| -> Result<(), String> {
+        match by_byte.get(&l.byte) {
+            None => Err(format!("{}: byte index {} is not on a character boundary", what, l.byte)),
+            Some(e) if *e != l => Err(format!(
+                "{}: location {}:{}@{} but scanning the input from its start gives {}:{}@{}",
+                what, l.line, l.col, l.byte, e.line, e.col, e.byte
+            )),
+            _ => Ok(()),
+        }
+    };
+    let mut last_end = 0u32;
+    for (k, it) in t.items.iter().enumerate() {
+        match it {
+            proto::Item::Tok { start, end, .. } => {
+                check(*start, &format!("token {} start", k))?;
+                check(*end, &format!("token {} end", k))?;
+                if start.byte > end.byte {
+                    return Err(format!("token {}: start {} > end {}", k, start.byte, end.byte));
+                }
+                if start.byte < last_end {
+                    return Err(format!(
+                        "token {} starts at byte {} before the end {} of an earlier lexeme",
+                        k, start.byte, last_end
+                    ));
+                }
+                last_end = end.byte;
+            }
+            proto::Item::Invalid { loc } | proto::Item::Custom { loc, .. } => {
+                check(*loc, &format!("error {} location", k))?;
+            }
+        }
+    }
+    for (k, e) in t.log.iter().enumerate() {
+        check(e.start, &format!("match_loc().0 in action {}", k))?;
+        check(e.end, &format!("match_loc().1 in action {}", k))?;
+        if e.start.byte > e.end.byte {
+            return Err(format!("action {}: match start {} > end {}", k, e.start.byte, e.end.byte));
+        }
+        if check_text {
+            if let Some(txt) = &e.text {
+                let slice = &input[e.start.byte as usize..e.end.byte as usize];
+                if slice != txt {
+                    return Err(format!(
+                        "action {}: match_() = {:?} but input[{}..{}] = {:?}",
+                        k, txt, e.start.byte, e.end.byte, slice
+                    ));
+                }
+            }
+        }
+    }
+    Ok(())
+}
+
+impl Prop for C06 {
+    fn id(&self) -> &'static str {
+        "C06"
+    }
+    fn profiles(&self, tier: Tier) -> Vec<(Profile, usize)> {
+        let mut rw = p_unicode();
+        rw.name = "unicode-rewind";
+        rw.kinds = KindMix::tokens_only();
+        rw.kinds.cont = 2;
+        rw.kinds.skip = 1;
+        rw.sets = (1, 1);
+        vec![(p_unicode(), tier.pick(200, 2500)), (rw, tier.pick(150, 2000))]
+    }
+    fn cases(&self, ctx: &SpecCtx, _c: &mut Compiled, r: &mut TestRunner, tier: Tier) -> Vec<Case> {
+        let mut cs = cases_from(ctx, r, &std_plan(tier, true));
+        // column of control characters other than newline/tab is not defined by the documentation
+        for c in cs.iter_mut() {
+            if c.input.chars().any(|ch| ch.is_control() && ch != '\n' && ch != '\t') {
+                c.input = c
+                    .input
+                    .chars()
+                    .map(|ch| if ch.is_control() && ch != '\n' && ch != '\t' { 'x' } else { ch })
+                    .collect();
+            }
+        }
+        cs
+    }
+    fn judge(&self, _ctx: &SpecCtx, v: &[Case], models: &[ModelOut], gots: &[Outcome]) -> Verdict {
+        let (model, t) = match one(models, gots) {
+            Ok(x) => x,
+            Err(v) => return v,
+        };
+        if let Err(e) = span_predicates(&v[0].input, &t.a, true) {
+            return Verdict::Bad(e);
+        }
+        let facet = Facet {
+            locs: true,
+            log: true,
+            log_text_peek: true,
+            upto_first_invalid: true,
+            after_first_invalid: false,
+            err_locs: true,
+        };
+        match compare_runs(&model.trace.a, &t.a, &facet) {
+            Err(e) => Verdict::Bad(e),
+            Ok(()) => Verdict::Ok {
+                nontrivial: v[0].input.chars().any(special)
+                    && (model.facts.rewinds > 0 || model.facts.continues > 0),
+            },
+        }
+    }
+    fn rule(&self) -> String {
+        "definitions over the alphabet {a, b, c, newline, tab, é (2 bytes), € (3), 京 (wide), 💝 (4 bytes, wide), U+0301 (zero width)} in literals, sets, ranges and `_`, with rewinding rule sets emphasised; inputs as for C01 plus scripts. Checked on every token, every logged match_loc()/match_() and every error: (a) reference-independent predicates over the whole trace — byte indices on character boundaries, start <= end, input[start..end] == match_(), lexemes ordered and disjoint, line/column equal to a rescan from byte 0 (newline, tab = 4, display width otherwise); (b) equality with the reference including full locations up to the first InvalidToken. Control characters other than newline/tab are replaced in inputs (their width is not documented). Non-trivial = the input contains a newline, tab or non-ASCII character and the case needed a rewind or accumulated a match with continue_.".into()
+    }
+    fn min_nontrivial(&self, _tier: Tier) -> usize {
+        200
+    }
+}
+
+// ---------------------------------------------------------------------------------------------
+// C07
+
+pub struct C07;
+
+impl Prop for C07 {
+    fn id(&self) -> &'static str {
+        "C07"
+    }
+    fn profiles(&self, tier: Tier) -> Vec<(Profile, usize)> {
+        let mut f = p_actions();
+        f.name = "fallible";
+        f.kinds.fscript = 6;
+        f.kinds.ferr = 3;
+        f.kinds.cont = 4;
+        let mut c = p_ctx();
+        c.name = "ctx-fallible";
+        c.kinds = KindMix::mixed();
+        c.kinds.ferr = 2;
+        vec![(f, tier.pick(220, 2500)), (c, tier.pick(100, 1200))]
+    }
+    fn cases(&self, ctx: &SpecCtx, _c: &mut Compiled, r: &mut TestRunner, tier: Tier) -> Vec<Case> {
+        cases_from(ctx, r, &std_plan(tier, true))
+    }
+    fn judge(&self, _ctx: &SpecCtx, _v: &[Case], models: &[ModelOut], gots: &[Outcome]) -> Verdict {
+        let (model, t) = match one(models, gots) {
+            Ok(x) => x,
+            Err(v) => return v,
+        };
+        let facet = Facet {
+            err_locs: true,
+            ..Facet::TOKENS
+        };
+        match compare_runs(&model.trace.a, &t.a, &facet) {
+            Err(e) => Verdict::Bad(e),
+            Ok(()) => Verdict::Ok {
+                nontrivial: (model.facts.invalid > 0 || model.facts.custom > 0)
+                    && (model.facts.error_loc_differs > 0 || model.facts.custom > 0),
+            },
+        }
+    }
+    fn rule(&self) -> String {
+        "definitions with fallible (`=?`) rules whose scripted decision may be Err(nonce), mixed with continue_/reset/switch rules and right contexts; inputs as for C01 with failures at the first character, in the middle of a lexeme, at end of input and after accumulated continue_ matches. Compared up to and including the first InvalidToken: item kinds (an error where the reference has a token and vice versa is a mismatch), Custom payloads (nonce and rule), and the byte location of every error, which must be the start of the current match. Non-trivial = an error occurred whose location differs from the position of the offending character, or a Custom error occurred.".into()
+    }
+    fn min_nontrivial(&self, _tier: Tier) -> usize {
+        200
+    }
+}
+
+// ---------------------------------------------------------------------------------------------
+// C08
+
+pub struct C08;
+
+impl Prop for C08 {
+    fn id(&self) -> &'static str {
+        "C08"
+    }
+    fn profiles(&self, tier: Tier) -> Vec<(Profile, usize)> {
+        let mut p = p_sets();
+        p.name = "sets-recovery";
+        p.kinds.sw = 4;
+        p.kinds.swret = 3;
+        p.kinds.script = 3;
+        p.rules = (1, 4);
+        p.allow_empty_sets = false;
+        vec![(p, tier.pick(320, 3500))]
+    }
+    fn cases(&self, ctx: &SpecCtx, _c: &mut Compiled, r: &mut TestRunner, tier: Tier) -> Vec<Case> {
+        let mut plan = std_plan(tier, true);
+        plan.guided = tier.pick(600, 3000);
+        cases_from(ctx, r, &plan)
+    }
+    fn judge(&self, _ctx: &SpecCtx, _v: &[Case], models: &[ModelOut], gots: &[Outcome]) -> Verdict {
+        let (model, t) = match one(models, gots) {
+            Ok(x) => x,
+            Err(v) => return v,
+        };
+        if model.facts.invalid == 0 {
+            return Verdict::Ok { nontrivial: false };
+        }
+        if !prefix_agrees(&model.trace.a, &t.a) {
+            // what happens up to the first failure belongs to C01/C03/C07
+            return Verdict::Skip;
+        }
+        let facet = Facet {
+            locs: false,
+            log: true,
+            log_text_peek: false,
+            upto_first_invalid: false,
+            after_first_invalid: true,
+            err_locs: true,
+        };
+        match compare_runs(&model.trace.a, &t.a, &facet) {
+            Err(e) => Verdict::Bad(format!("after the first InvalidToken: {}", e)),
+            Ok(()) => Verdict::Ok {
+                nontrivial: model.facts.invalid_in_non_init > 0 && model.facts.tokens_after_invalid >= 2,
+            },
+        }
+    }
+    fn rule(&self) -> String {
+        "definitions with 2-6 non-empty rule sets and many switching rules; inputs: lexemes of the rules with foreign characters injected (1-3 unlexable stretches) and all short strings over the class alphabet, with decision scripts (switches before the failure, returns/continues after it). Compared: everything AFTER the first InvalidToken — items with byte spans (they expose the resume position), error locations, and the logged rule ids (they expose the active rule set) — against the reference continuation from (position after the examined characters, Init, empty match); cases whose prefix up to the first failure already differs are skipped and counted. The user state (script position, log) is compared through the log. Non-trivial = a failure happened in a non-Init rule set and at least two tokens were produced after a failure.".into()
+    }
+    fn min_nontrivial(&self, _tier: Tier) -> usize {
+        100
+    }
+}
+
+// ---------------------------------------------------------------------------------------------
+// C09
+
+pub struct C09;
+
+impl Prop for C09 {
+    fn id(&self) -> &'static str {
+        "C09"
+    }
+    fn profiles(&self, tier: Tier) -> Vec<(Profile, usize)> {
+        let n = tier.pick(80, 800);
+        vec![
+            (p_rewind(), n),
+            (p_sets(), n),
+            (p_ctx(), n),
+            (p_eoi(), n),
+            (p_unicode(), n),
+            (p_actions(), n),
+        ]
+    }
+    fn cases(&self, ctx: &SpecCtx, _c: &mut Compiled, r: &mut TestRunner, tier: Tier) -> Vec<Case> {
+        let mut plan = std_plan(tier, true);
+        plan.exhaustive_cap = tier.pick(400, 3000);
+        plan.guided = tier.pick(150, 600);
+        plan.wild = tier.pick(150, 600);
+        let mut cs = cases_from(ctx, r, &plan);
+        // all constructors
+        let ctors = gen::ctor_strategy();
+        for c in cs.iter_mut() {
+            c.ctor = sample(&ctors, r);
+        }
+        // long inputs: one repeated character, only-foreign, long guided
+        let mut pool: Vec<char> = ctx.reps.clone();
+        pool.extend(ctx.foreign.iter().take(2));
+        if pool.is_empty() {
+            pool.push('a');
+        }
+        let n_long = tier.pick(4, 12);
+        for k in 0..n_long {
+            let ch = pool[k % pool.len()];
+            let len = if k % 3 == 0 { 10_000 } else { 1_200 };
+            let s: String = if k % 2 == 0 {
+                std::iter::repeat(ch).take(len).collect()
+            } else {
+                (0..len).map(|i| pool[(i * 7 + k) % pool.len()]).collect()
+            };
+            let script = sample(&gen::script_strategy(ctx.flat.sets.len() as u32, ctx.flat.fallible, 30), r);
+            cs.push(gen::simple_case(s, script));
+        }
+        if let Some(f) = ctx.foreign.first() {
+            cs.push(gen::simple_case(std::iter::repeat(*f).take(2000).collect(), vec![]));
+        }
+        cs
+    }
+    fn judge(&self, _ctx: &SpecCtx, v: &[Case], models: &[ModelOut], gots: &[Outcome]) -> Verdict {
+        let (model, t) = match one(models, gots) {
+            Ok(x) => x,
+            Err(v) => return v,
+        };
+        let n = v[0].input.chars().count();
+        if t.a.items.len() > n + 1 {
+            return Verdict::Bad(format!("{} items for {} characters (bound is n+1)", t.a.items.len(), n));
+        }
+        if t.a.log.len() > n + 1 {
+            return Verdict::Bad(format!("{} action invocations for {} characters (bound is n+1)", t.a.log.len(), n));
+        }
+        Verdict::Ok {
+            nontrivial: (n >= 8 && model.facts.invalid > 0 && model.facts.continues > 0) || n >= 1000,
+        }
+    }
+    fn rule(&self) -> String {
+        "definitions of every profile (rewinding, rule sets, right contexts, `$`, Unicode classes, all action kinds); inputs: short exhaustive strings, sampled lexemes with mutations, arbitrary scalar values, the empty input, a single repeated character, only-unlexable characters, and inputs of 1,200-10,000 characters; all six constructor variants. No reference is needed: the lexer must not panic, abort or hang (20 s watchdog per case, action budget n+2 enforced inside the actions), must yield at most n+1 items and run at most n+1 logged actions. Non-trivial = (n >= 8 with at least one error and one continue_) or n >= 1000.".into()
+    }
+    fn min_nontrivial(&self, _tier: Tier) -> usize {
+        200
+    }
+}
+
+// ---------------------------------------------------------------------------------------------
+// C10
+
+pub struct C10;
+
+impl Prop for C10 {
+    fn id(&self) -> &'static str {
+        "C10"
+    }
+    fn profiles(&self, tier: Tier) -> Vec<(Profile, usize)> {
+        let mut acc = p_actions();
+        acc.name = "actions-accumulate";
+        acc.kinds.cont = 6;
+        acc.kinds.skip = 3;
+        acc.kinds.rcont = 3;
+        acc.sets = (1, 2);
+        vec![(p_actions(), tier.pick(200, 2500)), (acc, tier.pick(140, 1500))]
+    }
+    fn cases(&self, ctx: &SpecCtx, _c: &mut Compiled, r: &mut TestRunner, tier: Tier) -> Vec<Case> {
+        cases_from(ctx, r, &std_plan(tier, true))
+    }
+    fn judge(&self, _ctx: &SpecCtx, _v: &[Case], models: &[ModelOut], gots: &[Outcome]) -> Verdict {
+        let (model, t) = match one(models, gots) {
+            Ok(x) => x,
+            Err(v) => return v,
+        };
+        let facet = Facet {
+            log_text_peek: true,
+            ..Facet::TOKENS
+        };
+        match compare_runs(&model.trace.a, &t.a, &facet) {
+            Err(e) => Verdict::Bad(e),
+            Ok(()) => Verdict::Ok {
+                nontrivial: model.facts.rewinds > 0 && model.facts.continues > 0 && model.facts.resets > 0,
+            },
+        }
+    }
+    fn rule(&self) -> String {
+        "definitions assigning every action kind (`re,` / `re = t` / return / continue with and without reset / switch / switch-and-return / fallible ok, err / scripted) to 2-6 rules; the sugar forms and their explicit spellings (`=> reset_match(); continue_()`, `=> return_(t)`) both occur and are both compared with the same reference, so they are interchangeable by transitivity. Every action body first appends (rule id, match_loc(), match_(), peek()) to a log in the user state. Compared up to the first InvalidToken: the log (hence: exactly one invocation per selected match, in order, none for abandoned candidates; match_ covers the text since the last reset; peek is the first unconsumed character) and the tokens with accumulated spans. Non-trivial = the case contains an abandoned longer candidate (rewind), an accumulating continue_ and a reset.".into()
+    }
+    fn min_nontrivial(&self, _tier: Tier) -> usize {
+        200
+    }
+}
+
+// ---------------------------------------------------------------------------------------------
+// C14
+
+pub struct C14;
+
+fn strip_text(r: &proto::Run) -> proto::Run {
+    let mut r = r.clone();
+    for e in r.log.iter_mut() {
+        e.text = None;
+    }
+    r
+}
+
+impl Prop for C14 {
+    fn id(&self) -> &'static str {
+        "C14"
+    }
+    fn profiles(&self, tier: Tier) -> Vec<(Profile, usize)> {
+        vec![(p_unicode(), tier.pick(160, 2000)), (p_actions(), tier.pick(120, 1500))]
+    }
+    fn cases(&self, ctx: &SpecCtx, _c: &mut Compiled, r: &mut TestRunner, tier: Tier) -> Vec<Case> {
+        let mut plan = std_plan(tier, true);
+        plan.exhaustive_cap = tier.pick(500, 3000);
+        plan.scripts_per_input = 1;
+        cases_from(ctx, r, &plan)
+    }
+    fn variants(&self, base: &Case) -> Vec<Case> {
+        Ctor::ALL
+            .iter()
+            .map(|c| {
+                let mut v = base.clone();
+                v.ctor = *c;
+                v
+            })
+            .collect()
+    }
+    fn judge(&self, _ctx: &SpecCtx, v: &[Case], models: &[ModelOut], gots: &[Outcome]) -> Verdict {
+        let mut runs = vec![];
+        for g in gots {
+            match basic_health(g) {
+                Ok(t) => runs.push(strip_text(&t.a)),
+                Err(e) => return Verdict::Bad(e),
+            }
+        }
+        for k in 1..runs.len() {
+            if runs[k] != runs[0] {
+                return Verdict::Bad(format!(
+                    "constructor {:?} and {:?} disagree: {} vs {}",
+                    v[0].ctor,
+                    v[k].ctor,
+                    crate::pipe::trunc(&fmt_run(&runs[0]), 400),
+                    crate::pipe::trunc(&fmt_run(&runs[k]), 400)
+                ));
+            }
+        }
+        Verdict::Ok {
+            nontrivial: models[0].facts.rewinds > 0 && v[0].input.chars().any(|c| !c.is_ascii()),
+        }
+    }
+    fn rule(&self) -> String {
+        "every generated (definition, input, script) is run through new, new_with_state, new_from_iter and new_from_iter_with_state, the iterator constructors with three iterator types (vec::IntoIter<char>, str::Chars, a hand-written cloneable counter iterator); `new`/`new_from_iter` receive the same user state through the state's Default impl. The six traces (tokens, full locations, errors, action logs with match_loc and peek; match_() removed) must be pairwise identical. Non-trivial = the case needed a rewind (the iterator was re-seated) and the input contains a multi-byte character.".into()
+    }
+    fn min_nontrivial(&self, _tier: Tier) -> usize {
+        200
+    }
+}
+
+// ---------------------------------------------------------------------------------------------
+// C15
+
+pub struct C15;
+
+impl Prop for C15 {
+    fn id(&self) -> &'static str {
+        "C15"
+    }
+    fn profiles(&self, tier: Tier) -> Vec<(Profile, usize)> {
+        vec![(p_actions(), tier.pick(160, 2000)), (p_eoi(), tier.pick(120, 1500))]
+    }
+    fn cases(&self, ctx: &SpecCtx, comp: &mut Compiled, r: &mut TestRunner, tier: Tier) -> Vec<Case> {
+        use proptest::prelude::*;
+        let mut plan = std_plan(tier, true);
+        plan.exhaustive_cap = tier.pick(300, 2000);
+        plan.scripts_per_input = 1;
+        let mut cs = cases_from(ctx, r, &plan);
+        let any64 = any::<u64>();
+        let ctors = gen::ctor_strategy();
+        for (i, c) in cs.iter_mut().enumerate() {
+            let n_items = oracle::model::run_model(comp, c).trace.a.items.len() as u32;
+            // clone points: uniformly inside the stream, and forced at 0, right after the last
+            // item and after the final None for a fixed share of the cases
+            let k = match i % 8 {
+                0 => 0,
+                1 => n_items,
+                2 => n_items + 1,
+                _ => {
+                    let x = sample(&any64, r);
+                    (x % (n_items as u64 + 2)) as u32
+                }
+            };
+            c.clone_at = Some(k);
+            c.sched = sample(&any64, r);
+            c.extra_nexts = 2;
+            if i % 3 == 0 {
+                c.ctor = sample(&ctors, r);
+            }
+        }
+        cs
+    }
+    fn variants(&self, base: &Case) -> Vec<Case> {
+        let mut plain = base.clone();
+        plain.clone_at = None;
+        plain.sched = 0;
+        vec![base.clone(), plain.clone(), plain]
+    }
+    fn judge(&self, _ctx: &SpecCtx, v: &[Case], models: &[ModelOut], gots: &[Outcome]) -> Verdict {
+        let mut ts = vec![];
+        for g in gots {
+            match basic_health(g) {
+                Ok(t) => ts.push(t),
+                Err(e) => return Verdict::Bad(e),
+            }
+        }
+        let (with_clone, plain, again) = (ts[0], ts[1], ts[2]);
+        if plain.a != again.a {
+            return Verdict::Bad(format!(
+                "running the same lexer twice on the same input gives different results: {} vs {}",
+                crate::pipe::trunc(&fmt_run(&plain.a), 400),
+                crate::pipe::trunc(&fmt_run(&again.a), 400)
+            ));
+        }
+        if with_clone.a != plain.a {
+            return Verdict::Bad(format!(
+                "the original is affected by its clone: uninterrupted {} vs original-with-clone {}",
+                crate::pipe::trunc(&fmt_run(&plain.a), 400),
+                crate::pipe::trunc(&fmt_run(&with_clone.a), 400)
+            ));
+        }
+        let k = (v[0].clone_at.unwrap_or(0) as usize).min(plain.a.items.len());
+        let b = match &with_clone.b {
+            Some(b) => b,
+            None => return Verdict::Bad("no clone run in the trace".into()),
+        };
+        if b.items[..] != plain.a.items[k..] || b.log != plain.a.log || b.after_none != 0 {
+            return Verdict::Bad(format!(
+                "the clone taken after {} items does not continue like the original: expected items {:?} got {}",
+                k,
+                plain.a.items[k..].iter().map(fmt_item).collect::<Vec<_>>(),
+                crate::pipe::trunc(&fmt_run(b), 500)
+            ));
+        }
+        let n_items = plain.a.items.len();
+        Verdict::Ok {
+            nontrivial: k > 0 && k < n_items && (models[0].facts.continues > 0 || models[0].facts.switches > 0),
+        }
+    }
+    fn rule(&self) -> String {
+        "definitions with `#[derive(Clone)]` and a cloneable user state holding the action log by value; case = (input, script, clone point k in 0..=items+1, 64-bit interleaving schedule, constructor); k = 0, k = number of items and k after the final None are forced for 3/8 of the cases. Three executions per case: with the clone (original and clone advanced in the order given by the schedule, each with 2 extra next() calls after None), uninterrupted, and uninterrupted again. Required: original-with-clone == uninterrupted (items, logs), clone's items == uninterrupted items from k on, clone's log == uninterrupted log, nothing after None, and the two uninterrupted runs are equal. No reference lexer is involved. Non-trivial = k strictly inside the stream and the case contains a continue_ or a switch (pending accumulated match or non-Init rule set at some clone points).".into()
+    }
+    fn min_nontrivial(&self, _tier: Tier) -> usize {
+        100
+    }
+}
+
 pub fn all_props() -> Vec<Box<dyn Prop>> {
-    vec![Box::new(C01)]
+    vec![
+        Box::new(C01),
+        Box::new(C03),
+        Box::new(C04),
+        Box::new(C05),
+        Box::new(C06),
+        Box::new(C07),
+        Box::new(C08),
+        Box::new(C09),
+        Box::new(C10),
+        Box::new(C14),
+        Box::new(C15),
+    ]
 }
 
 #[allow(dead_code)]
-fn _unused(_: Ctor, _: Dec) {
-    let _ = has_ctx;
-}
+fn _unused(_: Dec) {}
